@@ -1,5 +1,5 @@
 """C03 — encoding conforms to the Standard (structural and class-level clauses)."""
-import r_state, r_encclass, r_lookahead, r_surr, r_singlebyte
+import r_state, r_encclass, r_lookahead, r_surr, r_singlebyte, r_utf8store
 
 MANIFEST = {
     'category': 'other',
@@ -14,7 +14,8 @@ MANIFEST = {
             'exactly the code points the Standard names and no other constant folding exists. Index pointer selection and every mapped byte '
             'pair of the default (search-the-decode-table) encoders are numerical and not decided; the fast/less-slow encode tables are '
             'checked exhaustively under C17. ' 
-            '(D6, R-SINGLEBYTE, exhaustive data-vs-data) for each of the 28 single-byte Encoding statics the run parameters handed to SingleByteEncoder (code units mapped without a table look-up) mirror the const-evaluated decode table entry by entry, and the encoder\'s search order finds, for every code unit of the table, the first pointer holding it (the Standard\'s index-pointer rule).',
+            '(D6, R-SINGLEBYTE, exhaustive data-vs-data) for each of the 28 single-byte Encoding statics the run parameters handed to SingleByteEncoder (code units mapped without a table look-up) mirror the const-evaluated decode table entry by entry, and the encoder\'s search order finds, for every code unit of the table, the first pointer holding it (the Standard\'s index-pointer rule). ' 
+            '(R-UTF8STORE) the hand-inlined UTF-8 writers (convert_utf16_to_utf8_partial_inner/_tail behind every UTF-16 -> UTF-8 conversion and the UTF-8 encoder, convert_latin1_to_utf8_partial, convert_unaligned_utf16_to_utf8 of the UTF-16 decoder, and the three multi-byte writers of Utf8Destination) store, for every scalar of the domain the path conditions leave (80-7FF, 800-FFFF, the supplementary planes through the shape-checked surrogate-pair formula), exactly the bytes of its UTF-8 encoding: each stored byte is evaluated as an exact piecewise function of the input and compared piece by piece over the whole domain; constant runs are one complete sequence (EF BF BD).',
     'note': 'Trusted: rustc MIR, mirx, rule library, the Standard\'s encoder steps as transcribed in rules/r_state.py and rules/r_encclass.py.',
     'technique': 'abstract interpretation (exact interval sets, opaque table predicates) over MIR + path-summary pairing rules + value provenance',
 }
@@ -32,4 +33,5 @@ def run(rep, facts, tier):
         n = r_surr.run(rep, f, c, 'R-SURR', lambda nm: 'Encoder::' in nm or nm.startswith(('handles::Utf16Source', 'handles::Utf8Source')))
         rep.floor('R-SURR', 'surrogate tests on the encoder side', n, 10, c)
         r_singlebyte.run(rep, f, c)
+        r_utf8store.run(rep, f, c)
     return ('other', MANIFEST['text'], [])
